@@ -32,8 +32,25 @@ func (k Kind) String() string {
 }
 
 type KV struct {
-	K string
-	V *V
+	K  string
+	V  *V
+	KV *V // the key as a value when it is not a string (yq keeps the key's type; JSON output stringifies it)
+}
+
+// KeyValue returns the key as a value.
+func (e KV) KeyValue() *V {
+	if e.KV != nil {
+		return e.KV
+	}
+	return StrV(e.K)
+}
+
+// MakeKV builds an entry from a scalar key value.
+func MakeKV(k *V, v *V) KV {
+	if k.K == Str {
+		return KV{K: k.S, V: v}
+	}
+	return KV{K: k.Text(), V: v, KV: k.Copy()}
 }
 
 // V is a JSON-model value with exact integers and ordered maps.
@@ -75,7 +92,7 @@ func (v *V) Set(k string, x *V) {
 			return
 		}
 	}
-	v.M = append(v.M, KV{k, x})
+	v.M = append(v.M, KV{K: k, V: x})
 }
 
 func (v *V) Copy() *V {
@@ -95,7 +112,7 @@ func (v *V) Copy() *V {
 	if v.M != nil {
 		c.M = make([]KV, len(v.M))
 		for i, e := range v.M {
-			c.M[i] = KV{e.K, e.V.Copy()}
+			c.M[i] = KV{e.K, e.V.Copy(), e.KV}
 		}
 	}
 	return c
@@ -186,20 +203,21 @@ func numCmp(a, b *V) int {
 	if a.K == Int && b.K == Int {
 		return a.I.Cmp(b.I)
 	}
-	fa, fb := toBigFloat(a), toBigFloat(b)
-	if fa == nil || fb == nil { // NaN / Inf
-		x, y := toF(a), toF(b)
-		switch {
-		case x < y:
-			return -1
-		case x > y:
-			return 1
-		case x == y:
-			return 0
-		}
-		return 2
+	// as soon as one side is a float the comparison is on float64 values: JSON printers are free
+	// to spell 8.87e+17 as 887000000000000000, and readers map both to the same double
+	x, y := toF(a), toF(b)
+	switch {
+	case x < y:
+		return -1
+	case x > y:
+		return 1
+	case x == y:
+		return 0
 	}
-	return fa.Cmp(fb)
+	if math.IsNaN(x) && math.IsNaN(y) {
+		return 0
+	}
+	return 2
 }
 
 func toF(a *V) float64 {
@@ -208,16 +226,6 @@ func toF(a *V) float64 {
 		return f
 	}
 	return a.F
-}
-
-func toBigFloat(a *V) *big.Float {
-	if a.K == Int {
-		return new(big.Float).SetInt(a.I)
-	}
-	if math.IsNaN(a.F) || math.IsInf(a.F, 0) {
-		return nil
-	}
-	return new(big.Float).SetFloat64(a.F)
 }
 
 // JSON renders compact JSON. Non-ASCII is emitted raw (so the same text is also valid YAML
@@ -398,7 +406,7 @@ func parseJSONTok(dec *json.Decoder, t json.Token) (*V, error) {
 				if err != nil {
 					return nil, err
 				}
-				v.M = append(v.M, KV{k, e})
+				v.M = append(v.M, KV{K: k, V: e})
 			}
 			if _, err := dec.Token(); err != nil {
 				return nil, err
